@@ -52,6 +52,22 @@ pub fn drive(tr: &mut Tracer, rng: &mut StdRng, thorough: bool) {
             _ => { tr.emit(json!({"op": "with_scale_round", "a": a, "t": t, "m": m})); }
         }
     }
+    // byte / word boundaries of the number of digits dropped or added (shift-count fast paths)
+    for dist in (250..=280usize).chain(505..=535).chain([19, 20, 21, 589, 590, 591, 1000]) {
+        for extra in [3usize, 40] {
+            let len = dist + extra;
+            let sc = rng.gen_range(-5..=(len as i64));
+            let a = dec(rng.gen_bool(0.5), &shaped_digits(rng, len), sc);
+            let t = sc - dist as i64;
+            tr.emit(json!({"op": "with_scale", "form": "with_scale", "a": a, "t": t}));
+            tr.emit(json!({"op": "with_scale", "form": "to_owned_with_scale", "a": a, "t": t}));
+            tr.emit(json!({"op": "with_scale_round", "a": a, "t": t, "m": MODES[(dist + extra) % 7]}));
+            tr.emit(json!({"op": "round", "a": a, "t": t}));
+            // and the same distance upward
+            tr.emit(json!({"op": "with_scale", "form": "with_scale", "a": a, "t": sc + dist as i64}));
+            tr.emit(json!({"op": "with_scale_round", "a": a, "t": sc + dist as i64, "m": "Up"}));
+        }
+    }
     // the digit-pair primitive: all 4200 arguments
     for m in MODES {
         for sign in [-1, 0, 1] {
